@@ -237,8 +237,31 @@ async def _eff_caught_raise(ctx, idx, outs, args, p):
         raise AssertionError('caught_raise: no exception')
 
 
+class ExpectedLateRaise(ValueError):
+    """Raised on purpose by the `late_raise` effect (dsim/world.py does not count it as a failure of the party)."""
+
+
+async def _eff_late_raise(ctx, idx, outs, args, p):
+    """An MPyC coroutine without a result (returnType(None)) that fails AFTER a communication round.  Nobody waits for
+    it, the program goes on; the library's bookkeeping (program counter, pending-coroutine level) must survive it."""
+    rt = ctx.rt
+    from mpyc import asyncoro
+
+    @asyncoro.mpc_coro
+    async def late_raiser(x):
+        await rt.returnType(None)
+        await rt.output(x)
+        raise ExpectedLateRaise('user coroutine fails after its first round')
+
+    try:
+        late_raiser(ctx.env[args[0]])
+    except ExpectedLateRaise:       # synchronous (no_async) mode: the exception reaches the caller
+        pass
+
+
 EFFECTS = {
     'caught_raise': _eff_caught_raise,
+    'late_raise': _eff_late_raise,
     'sleep0': _eff_sleep0,
     'delay': _eff_delay,
     'gather': _eff_gather,
